@@ -236,6 +236,8 @@ Record env := {
   e_bk : N -> list item;               (* class-level backend pipeline *)
   e_fmt : N -> N -> list item;         (* class-level output format pipelines *)
   e_user : N -> list item;             (* user pipeline objects (one definition each) *)
+  e_qexpr : N -> option str;           (* class query_expression "idx={state[k]} | {query}": Some k; default "{query}": None *)
+  e_sdef : N -> list (str * str);      (* class state_defaults (a class-level dict; read only) *)
   e_bkvars : N -> vars;                (* `vars` of these pipeline definitions *)
   e_fmtvars : N -> N -> vars;
   e_uservars : N -> vars;
@@ -515,8 +517,23 @@ Definition finalize (fmt : N) (st : list (str * str)) (r : rule) (q : str) : str
          ++ lit " product=" ++ product_name (r_product r)
   end.
 
+(* TextQueryBackend.finish_query: query_expression.format(query=..., state=ChainMap(processing_state, state_defaults));
+   the rule's pipeline state shadows the class defaults and never changes them; a key in neither: KeyError *)
+Definition finish_query (E : env) (cls : N) (st : list (str * str)) (q : str) : outcome str :=
+  match e_qexpr E cls with
+  | None => Ok q
+  | Some k =>
+      match lookup k st with
+      | Some v => Ok (lit "idx=" ++ v ++ lit " | " ++ q)
+      | None => match lookup k (e_sdef E cls) with
+                | Some v => Ok (lit "idx=" ++ v ++ lit " | " ++ q)
+                | None => Crash 1
+                end
+      end
+  end.
+
 (* the loop over rule.detection.parsed_condition in convert_rule *)
-Fixpoint conv_conds (E : env) (cls : N) (dets : list (str * list ditem)) (w : world) (ks : list str)
+Fixpoint conv_conds (E : env) (cls : N) (dets : list (str * list ditem)) (fin : str -> outcome str) (w : world) (ks : list str)
   : world * outcome (list str) :=
   match ks with
   | [] => (w, Ok [])
@@ -526,8 +543,8 @@ Fixpoint conv_conds (E : env) (cls : N) (dets : list (str * list ditem)) (w : wo
       | Ok ct =>
           let '(tp, q) := render (e_ne E cls) cls false ct (w_tpl w1) in
           let w2 := set_tplw w1 tp in
-          match q with
-          | Ok s => let '(w3, r) := conv_conds E cls dets w2 rest in (w3, obind r (fun ss => Ok (s :: ss)))
+          match obind q fin with
+          | Ok s => let '(w3, r) := conv_conds E cls dets fin w2 rest in (w3, obind r (fun ss => Ok (s :: ss)))
           | SigmaErr e => (w2, SigmaErr e)
           | Crash e => (w2, Crash e)
           end
@@ -546,7 +563,7 @@ Definition conv_with (E : env) (w : world) (L : nat) (lfmt : N) (bk : backend) (
   | inr e => (w3, SigmaErr e)
   | inl r' =>
       let st := ps_state (w_ps w3 L) in
-      let '(w4, qs) := conv_conds E (b_cls bk) (r_dets r') w3 (r_conds r') in
+      let '(w4, qs) := conv_conds E (b_cls bk) (r_dets r') (finish_query E (b_cls bk) st) w3 (r_conds r') in
       (w4, obind qs (fun l => Ok (map (finalize fmt st r') l)))
   end.
 Definition conv_rule_raw (E : env) (w : world) (b : nat) (bk : backend) (fmt : N) (r : rule)
@@ -599,7 +616,7 @@ Fixpoint conv_rules (E : env) (w : world) (b : nat) (fmt : N) (collect : bool) (
       end
   end.
 
-Definition classes_probe : list N := [0; 1; 2; 3; 4; 5; 6; 7].
+Definition classes_probe : list N := [0; 1; 2; 3; 4; 5; 6; 7; 8; 9; 10; 11].
 Definition mk_out (E : env) (w : world) (o : obs) : out :=
   {| out_obs := o; out_hits := w_hits w; out_miss := w_miss w; out_hints := w_hints w;
      out_tpl_ok := forallb (fun c => N.eqb (t_eq (w_tpl w c)) 0 && N.eqb (t_sw (w_tpl w c)) 2 && N.eqb (t_re (w_tpl w c)) 4) classes_probe;
